@@ -1418,9 +1418,14 @@ func (e *Exec) builtin(b *ssa.Builtin, args []Value, c *ssa.CallCommon) Value {
 		for _, a := range args[1:] {
 			t := a.(VInt).T
 			var c Term
-			if b.Name() == "min" {
+			switch {
+			case intMode && b.Name() == "min":
+				c = IntCmp("<", t, r)
+			case intMode:
+				c = IntCmp(">", t, r)
+			case b.Name() == "min":
 				c = BVBin("<", t, r, signed)
-			} else {
+			default:
 				c = BVBin(">", t, r, signed)
 			}
 			r = Ite(c, t, r)
